@@ -282,6 +282,39 @@ theorem clone_fresh_detach_shares (g : Bool) (l : Leaf) :
     (convLeaf .detach g l).rg = false ∧ (convLeaf .detach g l).fresh = l.fresh ∧ (convLeaf .detach g l).id = l.id := by
   simp [convLeaf]
 
+/-- **`requires_grad_(v)` reaches every floating tensor, whatever the flags were before**: for every operator tree
+of any depth, any number of args / kwargs and *any initial requires_grad pattern* (all off, all on, mixed), if every
+sub-operator reports a floating `dtype` (`fdt`; that is the test `_set_requires_grad` itself applies before it
+descends), then afterwards the flattened representation is the old one with every floating leaf's flag set to `v`
+and every integer / boolean leaf untouched.  In particular the result does not depend on the initial flags of the
+floating leaves (no "already done" shortcut for a partially switched-on child). -/
+theorem requires_grad_reaches_every_floating_leaf (cfg : Cfg) (v : Bool) (o : Op) (h : fdt cfg o = true) :
+    rep (setRG cfg v o) = (rep o).map (rgLeaf v) ∧
+    (∀ l ∈ rep (setRG cfg v o), l.dt.isFloat = true → l.rg = v) := by
+  have e := rep_setRG cfg v o h
+  refine ⟨e, ?_⟩
+  intro l hl hf
+  rw [e] at hl
+  rcases List.mem_map.mp hl with ⟨l0, _, rfl⟩
+  unfold rgLeaf at hf ⊢
+  by_cases h0 : l0.dt.isFloat = true
+  · simp [h0]
+  · simp [h0] at hf
+
+/-- Non-vacuity and the mixed-history instance: in `Sum(Interpolated(…), Chol(…), ConstantDiag)` with only
+`left_interp_values` (leaf 2) already requiring grad, `requires_grad_(True)` switches on all five floating leaves and
+leaves the two index tensors off; `requires_grad_(False)` switches everything off. -/
+theorem requires_grad_mixed_history_example :
+    let mixed : Op := .node "SumLinearOperator"
+      [.node "InterpolatedLinearOperator"
+        [.node "DenseLinearOperator" [tL 0 .f32] [] [] [] [], tL 1 .i64, .leaf ⟨.f32, [2, 2], 2, false, true⟩, tL 3 .i64,
+         tL 4 .f32] [] [] [] [],
+       exChol false, .node "ConstantDiagLinearOperator" [tL 5 .f32] [] [] [("diag_shape", .int 2)] []] [] [] [] []
+    fdt (genCfg .f32) mixed = true ∧
+    (rep (setRG (genCfg .f32) true mixed)).map (·.rg) = [true, false, true, false, true, true, true] ∧
+    (rep (setRG (genCfg .f32) false mixed)).map (·.rg) = [false, false, false, false, false, false, false] := by
+  decide +kernel
+
 /-- `_set_requires_grad` touches exactly the floating tensors held directly by an operator. -/
 theorem requires_grad_exactly_float (cfg : Cfg) (v : Bool) (l : Leaf) :
     setRG cfg v (.leaf l) = .leaf (if l.dt.isFloat then { l with rg := v } else l) := by
